@@ -82,7 +82,6 @@ Section Thms.
   (* an exception (no kill), the injected fault - if any - not inside the cleanup handlers:
      the whole directory is exactly as before and no validity flag changed *)
   Theorem exception_clean c e :
-    nul_free tens sc ->
     crash_at c = None ->
     snd (run c fs0 tens small sc) = SRaise e ->
     ~ In (OFail true) (s_trace (fst (run c fs0 tens small sc))) ->
@@ -90,10 +89,10 @@ Section Thms.
     /\ map t_valid (s_tens (fst (run c fs0 tens small sc))) = map t_valid tens
     /\ Forall2 trel (s_tens (fst (run c fs0 tens small sc))) tens.
   Proof.
-    intros Hnn Hc Hr Hnf. destruct Hwf as (H1 & H2 & H3).
+    intros Hc Hr Hnf. destruct Hwf as (H1 & H2 & H3).
     destruct (spec c) as [(HA & _ & Hcl)|(d & m & s1 & _ & _ & _ & Hcl)].
     - pose proof (InvA_lookup _ _ _ _ HA) as HF. destruct HA as [_ HV].
-      split; [|exact HV]. intros p. destruct (Hcl Hc Hnn) as [HN|X]; [|contradiction].
+      split; [|exact HV]. intros p. destruct (Hcl Hc) as [HN|X]; [|contradiction].
       destruct (T (sc_tmpd sc) p) eqn:E.
       + rewrite (HN p E). symmetry. apply H1. exact E.
       + apply HF. exact E.
@@ -102,7 +101,6 @@ Section Thms.
 
   (* ... and every external tensor is still valid-as-before and reads the bytes it read before *)
   Theorem exception_tensors_read_old c e :
-    nul_free tens sc ->
     crash_at c = None ->
     snd (run c fs0 tens small sc) = SRaise e ->
     ~ In (OFail true) (s_trace (fst (run c fs0 tens small sc))) ->
@@ -112,8 +110,8 @@ Section Thms.
       /\ t_valid t' = t_valid t
       /\ read_tensor (s_fs (fst (run c fs0 tens small sc))) t' = read_tensor fs0 t.
   Proof.
-    intros Hnn Hc Hr Hnf Hcoh h t Ht.
-    destruct (exception_clean c e Hnn Hc Hr Hnf) as (Hfs & _ & HT).
+    intros Hc Hr Hnf Hcoh h t Ht.
+    destruct (exception_clean c e Hc Hr Hnf) as (Hfs & _ & HT).
     destruct (Forall2_nth_r _ _ _ _ _ HT Ht) as (t' & Ht' & Hrel).
     exists t'. split; [exact Ht'|]. split; [exact (proj1 (proj2 (proj2 (proj2 Hrel))))|].
     rewrite (read_tensor_ext _ fs0 t' Hfs). apply read_trel; [exact Hrel|].
@@ -125,7 +123,8 @@ Section Thms.
     let s := fst (run c fs0 tens small sc) in
     nth_error (map t_valid (s_tens s)) h = Some false ->
     nth_error (map t_valid tens) h = Some false
-    \/ (In h (overwritten fs0 tens sc) /\ In (OReplace tmpf dest) (s_trace s)
+    \/ (In h (overwritten fs0 tens sc) /\ realpath_is_dest fs0 tens sc h = true
+        /\ In (OReplace tmpf dest) (s_trace s)
         /\ exists d m, lookup (s_fs s) dest = Some (File d m)).
   Proof.
     cbv zeta. intros Hv. destruct Hwf as (H1 & H2 & H3). subst tmpf dest.
@@ -134,7 +133,8 @@ Section Thms.
     - left. unfold valids in HV. rewrite <- HV. exact Hv.
     - destruct (HW h) as [E|[E Ho]].
       + left. unfold valids in E. rewrite <- E. exact Hv.
-      + right. split; [exact Ho|split; [exact Hin|]]. exists d, m. rewrite (HF _ H2). apply lookup_insert_eq.
+      + right. unfold invalidated in Ho. apply filter_In in Ho. destruct Ho as [Ho1 Ho2].
+        split; [exact Ho1|split; [exact Ho2|split; [exact Hin|]]]. exists d, m. rewrite (HF _ H2). apply lookup_insert_eq.
   Qed.
 End Thms.
 
